@@ -1,6 +1,7 @@
 //! csv-sqlgate — correspondence + oracle for C11 (the query interfaces cannot
 //! modify stored data) and C10 (concurrent queries do not affect each other's
 //! results).  `--prop C11|C10` selects the property (default C11).
+mod c10;
 mod c11;
 mod env;
 
@@ -8,6 +9,7 @@ fn main() {
     let args = csv_common::Args::parse();
     match args.get("prop").unwrap_or("C11") {
         "C11" => c11::main(args),
+        "C10" => c10::main(args),
         other => {
             eprintln!("unknown property {}", other);
             std::process::exit(2);
